@@ -185,7 +185,7 @@ int main(int argc, char **argv)
             vproxy *px = new vproxy(4);
             px->set_target_temperature(T);
             place(*px, c, word[0], 0);
-            if (px->config(conf) != 0) { fprintf(stderr, "HARNESS-ERROR: %s rejected: %s\n", c.name, px->errtxt.c_str()); exit(2); }
+            if (px->config(conf) != 0) { fprintf(stderr, "HARNESS-ERROR: %s rejected: %s\n", c.name, px->errtxt.c_str()); exit(3); }
             RefMeta ref(c);
             std::vector<long> calls;
             for (long s = 0; s < L; s++) { calls.push_back(s); if (mode && s == K) calls.push_back(s); }
@@ -203,7 +203,7 @@ int main(int argc, char **argv)
                   px = new vproxy(4);
                   px->set_target_temperature(T);
                   place(*px, c, word[s], s);
-                  if (px->config(c.rebin ? conf_text(c, true) : conf) != 0) { fprintf(stderr, "HARNESS-ERROR: %s rejected at restart: %s\n", c.name, px->errtxt.c_str()); exit(2); }
+                  if (px->config(c.rebin ? conf_text(c, true) : conf) != 0) { fprintf(stderr, "HARNESS-ERROR: %s rejected at restart: %s\n", c.name, px->errtxt.c_str()); exit(3); }
                   px->queue_state_text(st);
                   if (c.rebin) { ref.lo = 1.5; ref.up = 2.5; }
                   // saving the state tabulates every hill (documented: grids are brought up to date when written)
